@@ -109,26 +109,99 @@ type C08Wide struct {
 	Self       *C08Wide
 }
 
-// recursive types that are not structs (finding C08-recursive-nonstruct-type)
+// recursive types that are not structs
 type C08RS []C08RS
 type C08RM map[string]C08RM
 type C08RP *C08RP
 type C08RSP []*C08RSP
+type C08RMS map[string][]C08RMS
+type C08RSM []map[string]C08RSM
+type C08RA [2][]C08RA
+type C08RT struct {
+	F C08RS
+	G C08RM
+	H map[string]C08RS
+	P *C08RM
+	Q []C08RM
+	R *C08RS
+	U [2]C08RS
+	E interface{}
+}
 
+// pointer types that contain only themselves are not supported (finding C08-recursive-nonstruct-type)
 var c08NonStruct = []struct {
 	name string
 	v    interface{}
 }{
-	{"type S []S", C08RS{C08RS{}, C08RS{C08RS{}}}},
-	{"type M map[string]M", C08RM{"a": C08RM{"b": nil}}},
 	{"type P *P (nil)", C08RP(nil)},
-	{"type SP []*SP", C08RSP{nil}},
-	{"struct{ F S } with type S []S", struct{ F C08RS }{C08RS{nil}}},
+	{"struct{ F P } with type P *P", struct{ F C08RP }{nil}},
+}
+
+// c08ListTypes: builders of deep and cyclic values of the recursive slice / map / array types
+var c08ListTypes = []struct {
+	name string
+	deep func(d int) interface{}
+	cyc  func() interface{}
+}{
+	{"type S []S", func(d int) interface{} {
+		var v C08RS
+		for i := 0; i < d; i++ {
+			v = C08RS{v, nil}
+		}
+		return v
+	}, func() interface{} { c := C08RS{nil}; c[0] = c; return c }},
+	{"type M map[string]M", func(d int) interface{} {
+		var v C08RM
+		for i := 0; i < d; i++ {
+			v = C08RM{"k": v, "e": C08RM{}}
+		}
+		return v
+	}, func() interface{} { c := C08RM{}; c["a"] = c; return c }},
+	{"type SP []*SP", func(d int) interface{} {
+		v := C08RSP{nil}
+		for i := 0; i < d; i++ {
+			in := v
+			v = C08RSP{&in, nil}
+		}
+		return v
+	}, func() interface{} { c := C08RSP{nil}; c[0] = &c; return c }},
+	{"type MS map[string][]MS", func(d int) interface{} {
+		var v C08RMS
+		for i := 0; i < d; i++ {
+			v = C08RMS{"k": {v, nil}}
+		}
+		return v
+	}, func() interface{} { c := C08RMS{}; c["a"] = []C08RMS{c}; return c }},
+	{"type SM []map[string]SM", func(d int) interface{} {
+		var v C08RSM
+		for i := 0; i < d; i++ {
+			v = C08RSM{{"k": v}, nil}
+		}
+		return v
+	}, func() interface{} { c := C08RSM{nil}; c[0] = map[string]C08RSM{"a": c}; return c }},
+	{"type A [2][]A", func(d int) interface{} {
+		var v C08RA
+		for i := 0; i < d; i++ {
+			v = C08RA{[]C08RA{v}, nil}
+		}
+		return &v
+	}, func() interface{} { c := &C08RA{}; c[0] = []C08RA{{}}; c[0][0][1] = c[0]; return c }},
+	{"struct with fields of recursive slice / map types", func(d int) interface{} {
+		var sv C08RS
+		var mv C08RM
+		for i := 0; i < d; i++ {
+			sv = C08RS{sv}
+			mv = C08RM{"k": mv}
+		}
+		return &C08RT{F: sv, G: mv, H: map[string]C08RS{"h": sv}, P: &mv, Q: []C08RM{mv, nil}, R: &sv, U: [2]C08RS{sv, nil}, E: []interface{}{sv, mv}}
+	}, func() interface{} { c := C08RS{nil}; c[0] = c; return &C08RT{H: map[string]C08RS{"h": c}} }},
 }
 
 var c08Hand = []reflect.Type{
 	reflect.TypeOf(C08MutA{}), reflect.TypeOf(C08MutB{}), reflect.TypeOf(C08Tri1{}), reflect.TypeOf(C08Tri2{}),
 	reflect.TypeOf(C08Tri3{}), reflect.TypeOf(C08Tree{}), reflect.TypeOf(C08Outer{}), reflect.TypeOf(C08Wide{}),
+	reflect.TypeOf(C08RS{}), reflect.TypeOf(C08RM{}), reflect.TypeOf(C08RSP{}), reflect.TypeOf(C08RMS{}), reflect.TypeOf(C08RSM{}),
+	reflect.TypeOf(C08RA{}), reflect.TypeOf(C08RT{}),
 }
 
 func c08Types() []reflect.Type { return append(append([]reflect.Type{}, c08GenTypes...), c08Hand...) }
@@ -701,7 +774,34 @@ func runC08(c *Ctx) {
 		c08Judge(c, "grammar", v.Interface(), t, false)
 	}, func(k int, rng *rand.Rand) string { return fmt.Sprint("grammar case ", k) }, nil)
 
-	// recursive types that are not structs: the compiler follows them without end
+	// recursive slice / map / array types: deep values and cycles
+	ldepths := []int{0, 1, 2, 7, 100, 999, 1001, 2000}
+	c.RunCases("listtypes", len(c08ListTypes)*(len(ldepths)+1), func(c *Ctx, k int, rng *rand.Rand) {
+		lt := c08ListTypes[k%len(c08ListTypes)]
+		di := k / len(c08ListTypes)
+		if di < len(ldepths) {
+			d := ldepths[di]
+			v := lt.deep(d)
+			if d <= 7 {
+				c08Judge(c, fmt.Sprintf("listtype-depth-%d", d), v, reflect.TypeOf(v), true)
+			} else {
+				c08JudgeDeep(c, fmt.Sprintf("listtype-depth-%d", d), fmt.Sprintf("%s nested %d levels", lt.name, d), v, d, true)
+			}
+			return
+		}
+		v := lt.cyc()
+		for name, f := range map[string]func() ([]byte, error){
+			"Marshal":       func() ([]byte, error) { return json.Marshal(v) },
+			"MarshalIndent": func() ([]byte, error) { return json.MarshalIndent(v, "", " ") },
+			"Colorize":      func() ([]byte, error) { return json.MarshalWithOption(v, json.Colorize(c13Scheme)) },
+		} {
+			_, gerr, gp := safeMarshal(f)
+			_, serr := stdjson.Marshal(v)
+			c.Oracle("cycle-is-error/"+name, lt.name+" containing itself", fmt.Sprintf("err=%s panic=%s", errT(gerr), gp), fmt.Sprintf("err=%v", serr != nil), gp == "" && gerr != nil && serr != nil, "")
+		}
+	}, func(k int, rng *rand.Rand) string { return "recursive list type case " + c08ListTypes[k%len(c08ListTypes)].name }, nil)
+
+	// pointer types that contain only themselves: the compiler follows them without end
 	c.RunCases("nonstruct", len(c08NonStruct), func(c *Ctx, k int, rng *rand.Rand) {
 		iv := c08NonStruct[k].v
 		g, gerr, gp := safeMarshal(func() ([]byte, error) { return json.Marshal(iv) })
